@@ -2,6 +2,7 @@
 package c07
 
 import (
+	"context"
 	"fmt"
 	"net"
 	"os"
@@ -260,6 +261,167 @@ func TestC07ShutdownUnderConnects(t *testing.T) {
 			}
 		}
 	})
+}
+
+// Registrations racing the shutdown: a connection handed to Engine.Register /
+// EventLoop.Enroll is duplicated by the framework before the owning loop is asked to
+// register it; whatever the loop does with the request, the duplicate must be closed
+// by the time Run has returned and every accepted call must still deliver its result.
+func TestC07RegisterAtShutdown(t *testing.T) {
+	st := vstat.New("C07.register_at_shutdown")
+	defer st.Flush()
+	warmUp()
+	rapid.Check(t, func(t *rapid.T) {
+		cfg := fx.DrawCfg(t, fx.DrawOpt{ServerOnly: true, NoUnix: true})
+		if cfg.LB == gnet.RoundRobin {
+			cfg.LB = gnet.LeastConnections // Engine.Register with Round-Robin is a documented data race
+		}
+		workers := rapid.IntRange(1, 6).Draw(t, "workers")
+		delayUs := rapid.SampledFrom([]int{0, 100, 500, 2000, 8000}).Draw(t, "stopAfterUs")
+		kind := rapid.SampledFrom([]string{"register", "enroll", "both"}).Draw(t, "kind")
+		before := fdTable()
+		tl, err := net.Listen("tcp4", fx.Host("tcp4")+":0")
+		if err != nil {
+			t.Fatalf("VERIF-INFRA %v", err)
+		}
+		var amu sync.Mutex
+		var accepted []net.Conn
+		go func() {
+			for {
+				c, err := tl.Accept()
+				if err != nil {
+					return
+				}
+				amu.Lock()
+				accepted = append(accepted, c)
+				amu.Unlock()
+			}
+		}()
+		var opens, closes int64
+		e, err := fx.Start(cfg, fx.EngineHooks{Unbound: func(gnet.Conn) fx.ConnHooks { return floodConn{&opens, &closes} }})
+		if err != nil {
+			tl.Close()
+			t.Fatalf("VERIF-INFRA %v", err)
+		}
+		first := &firstConn{floodConn: floodConn{&opens, &closes}}
+		peer, _, err := e.Connect(first)
+		if err != nil {
+			_ = e.Stop()
+			tl.Close()
+			t.Fatalf("VERIF-INFRA %v", err)
+		}
+		loop := first.gc.EventLoop()
+		type call struct {
+			what string
+			ch   <-chan gnet.RegisteredResult
+		}
+		var cmu sync.Mutex
+		var calls []call
+		var mine []net.Conn
+		var stop int32
+		var wg sync.WaitGroup
+		for w := 0; w < workers; w++ {
+			wg.Add(1)
+			go func(w int) {
+				defer wg.Done()
+				for i := 0; atomic.LoadInt32(&stop) == 0 && i < 400; i++ {
+					ctx := gnet.NewContext(context.Background(), fx.ConnHooks(floodConn{&opens, &closes}))
+					if kind == "register" || (kind == "both" && (w+i)%2 == 0) {
+						ch, err := e.Eng.Register(gnet.NewNetAddrContext(ctx, tl.Addr()))
+						if err == nil {
+							cmu.Lock()
+							calls = append(calls, call{"Engine.Register", ch})
+							cmu.Unlock()
+						}
+					} else {
+						nc, derr := net.Dial("tcp4", tl.Addr().String())
+						if derr != nil {
+							continue
+						}
+						cmu.Lock()
+						mine = append(mine, nc) // Enroll works on a duplicate: the caller's connection stays the caller's
+						cmu.Unlock()
+						ch, err := loop.Enroll(ctx, nc)
+						if err == nil {
+							cmu.Lock()
+							calls = append(calls, call{"EventLoop.Enroll", ch})
+							cmu.Unlock()
+						}
+					}
+				}
+			}(w)
+		}
+		time.Sleep(time.Duration(delayUs) * time.Microsecond)
+		serr := e.Stop()
+		atomic.StoreInt32(&stop, 1)
+		wg.Wait()
+		peer.Close()
+		st.Eval()
+		st.NonTrivial(vstat.Hash(cfg.String(), workers, delayUs, kind))
+		st.LabelN("registrations_accepted", int64(len(calls)))
+		if st.WantSample(true) {
+			st.Sample(true, fmt.Sprintf("%s: %d workers (%s), Stop after %dus, %d registrations accepted", cfg, workers, kind, delayUs, len(calls)))
+		}
+		if serr != nil {
+			t.Fatalf("VERIF-KEY:fd-stop %v", serr)
+		}
+		// every accepted call delivers exactly one result
+		lost, surplus := 0, 0
+		deadline := time.Now().Add(4 * time.Second)
+		for _, c := range calls {
+			n := 0
+		drain:
+			for {
+				select {
+				case _, ok := <-c.ch:
+					if !ok {
+						break drain
+					}
+					n++
+				case <-time.After(time.Until(deadline)):
+					break drain
+				}
+			}
+			if n == 0 {
+				lost++
+			} else if n > 1 {
+				surplus++
+			}
+		}
+		for _, c := range mine {
+			c.Close()
+		}
+		tl.Close()
+		amu.Lock()
+		for _, c := range accepted {
+			c.Close()
+		}
+		amu.Unlock()
+		l := leaked(before)
+		if surplus > 0 {
+			t.Fatalf("VERIF-KEY:fd-register-results %d registrations delivered more than one result\ncfg: %s", surplus, cfg)
+		}
+		if lost > 0 || len(l) > 0 {
+			t.Fatalf("VERIF-KEY:fd-leak-register-at-shutdown %d of %d registrations accepted around the shutdown never delivered a result (4s after Run returned); descriptors still open that were not open before: %d %v\ncfg: %s workers=%d kind=%s stopAfter=%dus", lost, len(calls), len(l), head(l, 6), cfg, workers, kind, delayUs)
+		}
+	})
+}
+
+type firstConn struct {
+	floodConn
+	gc gnet.Conn
+}
+
+func (f *firstConn) OnOpen(c gnet.Conn) ([]byte, gnet.Action) {
+	f.gc = c
+	return f.floodConn.OnOpen(c)
+}
+
+func head(s []string, n int) []string {
+	if len(s) > n {
+		return s[:n]
+	}
+	return s
 }
 
 func TestMain(m *testing.M) {
